@@ -282,6 +282,9 @@ func runSplineTrace(fs *flag.FlagSet, prop string, seed uint64, n int, outDir, f
 			}
 		}
 		e.LongEdge = hasLongEdge(c)
+		if e.Outcome == "hang" && !e.LongEdge && !e.ZeroWidth && confirmHang(c) {
+			e.Outcome, e.Detail = "ok", "" // outside the recorded class and the call returns in a fresh process: a busy machine
+		}
 		if e.Outcome != "ok" {
 			continue
 		}
